@@ -42,6 +42,7 @@ pub fn large_vol(geom_idx: usize, l: LargeCfg) -> VolCfg {
         access_date: false,
         gen: if by_gen { Some(GenGeom { rsvd: 32, ..Default::default() }) } else { None },
         large: Some(l),
+        short_io: 0,
     }
 }
 
